@@ -98,6 +98,11 @@ func genC17(rt *rapid.T) *FmtCase {
 	c.HasHook = rapid.IntRange(0, 9).Draw(rt, "hook") > 0
 	if c.HasHook {
 		c.Hook = genHookScript(rt, vc)
+		if rapid.IntRange(0, 5).Draw(rt, "hookpanics") == 0 {
+			// a hook that panics after its partial output (payload: not an
+			// error, which the hook itself would be asked to render)
+			c.Hook = append(c.Hook, &Op{K: "Panic", Args: []*Val{vc.leafS(rt, "str", false, false)}})
+		}
 	}
 	for _, k := range regKindsAll {
 		if rapid.IntRange(0, 5).Draw(rt, "reg") == 0 {
